@@ -39,7 +39,7 @@ TIERS = {
               "required_probes": ["c02.ops_done", "c02.repeat_after_pickle", "c02.repeat_after_deepcopy",
                                   "c02.small_cache_world", "c02.sweep_done", "c02.fresh_compared", "c02.nd_ops_done",
                                   "c02.nd_sweep_done", "c02.nd_repeat_after_copy"]},
-    "thorough": {"worlds": 6000, "wall": 3300, "shrink_budget": 150, "sweep": 1 << 19,
+    "thorough": {"worlds": 6000, "wall": 2900, "shrink_budget": 150, "sweep": 1 << 19,
                  "required_probes": ["c02.ops_done", "c02.repeat_after_pickle", "c02.repeat_after_deepcopy",
                                      "c02.small_cache_world", "c02.sweep_done", "c02.fresh_compared"]},
 }
